@@ -291,5 +291,5 @@ func runC09(c C09Case) *Result {
 }
 
 func TestC09(t *testing.T) {
-	runSpec(t, Spec[C09Case]{ID: "C09", Gen: genC09, Run: runC09})
+	runSpec(t, Spec[C09Case]{ID: "C09", Gen: genC09, Run: runC09, Pre: preScaleC09})
 }
